@@ -125,6 +125,11 @@ pub fn programs() -> Vec<Prog> {
         let src = format!("struct MatHost {{ {} }};\n@group(0) @binding(0) var<uniform> mat_host: MatHost;\nstruct VecVertex {{ @location(0) a: vec2<f32>, @location(1) b: vec3<f32>, @location(2) c: vec4<f32>, @location(3) d: vec3<u32> }};\n@vertex fn vs_main(v: VecVertex) -> @builtin(position) vec4<f32> {{\n    return vec4<f32>(mat_host.m0.x);\n}}\n@fragment fn fs_main() -> @location(0) vec4<f32> {{\n    return vec4<f32>(1.0);\n}}\n@compute @workgroup_size(2, 3) fn cs_main() {{\n}}\n", members.join(", "));
         out.push(Prog { key: "roles=matrix-members".into(), src, structs: vec![RoleStruct { name: "MatHost", host: true, rts: false }, RoleStruct { name: "VecVertex", host: false, rts: false }] });
     }
+    // entry-input structs made only of builtins (no field survives): the derive switches apply to them like to any struct
+    {
+        let src = "struct VBuiltins { @builtin(vertex_index) vi: u32, @builtin(instance_index) ii: u32 };\nstruct FBuiltins { @builtin(position) fpos: vec4<f32>, @builtin(front_facing) ff: bool };\nstruct CBuiltins { @builtin(global_invocation_id) gid: vec3<u32>, @builtin(local_invocation_index) li: u32 };\nstruct HostToo { k: vec4<f32> };\n@group(0) @binding(0) var<uniform> host_too: HostToo;\n@vertex fn vs_main(v: VBuiltins) -> @builtin(position) vec4<f32> {\n    return host_too.k;\n}\n@fragment fn fs_main(f: FBuiltins) -> @location(0) vec4<f32> {\n    return vec4<f32>(1.0);\n}\n@compute @workgroup_size(2, 3) fn cs_main(c: CBuiltins) {\n}\n".to_string();
+        out.push(Prog { key: "roles=builtin-only".into(), src, structs: vec![RoleStruct { name: "VBuiltins", host: false, rts: false }, RoleStruct { name: "FBuiltins", host: false, rts: false }, RoleStruct { name: "CBuiltins", host: false, rts: false }, RoleStruct { name: "HostToo", host: true, rts: false }] });
+    }
     // a struct nested in a host struct at each member position, with members of repeated types around it; the nested
     // struct is also a vertex input / only nested
     for pos in 0..3usize {
@@ -216,7 +221,7 @@ pub fn run(tier: &str) -> i32 {
     let mut progs = programs();
     if !thorough {
         // quick: every single component and the full set, plus runtime-array variants
-        progs.retain(|p| p.key.len() <= "roles=XX".len() || p.key.contains("VHBFNW") || p.key.contains('R') || p.key.contains("nested-both") || p.key.contains("matrix-members"));
+        progs.retain(|p| p.key.len() <= "roles=XX".len() || p.key.contains("VHBFNW") || p.key.contains('R') || p.key.contains("nested-both") || p.key.contains("matrix-members") || p.key.contains("builtin-only"));
         let _ = 0;
     }
     let configs = all_configs_192();
